@@ -60,6 +60,7 @@ def cases(draw, name, tier, many=False):
     if name == "chain_from_iterable":
         case["params"]["outer"]["fl"] = draw(st.sampled_from(["agen", "aclass", "list"]))
         case["params"]["outer"]["csusp"] = draw(st.booleans())
+        case["params"]["outer"]["falsy"] = draw(st.integers(0, 2)) == 0
     for spec in case["fns"].values():
         spec["fl"] = draw(st.sampled_from(["def", "async"]))
     case["mode"] = draw(st.sampled_from(["hooks", "bare"]))
@@ -99,6 +100,13 @@ async def scenario(b, case):
         else:
             ctx.ev("yield", 0, sig(value))
             del value
+    if b.advanced and ctx.log and ctx.log[-1][0] in ("stop", "raise"):
+        # "by the time that raise/exhaustion completes": looked at NOW, before the consumer does anything else
+        # (a later aclose() of a handle that closes what it owns would hide a source left open here)
+        # - for the sources the tool had begun to use; one it never touched may wait for the handle's own aclose()
+        #   (chain(a, b) failing in a: b is closed by chain.aclose(), the documented "closes them when closed")
+        b.extra = {"open-at-end": [s_.name for s_ in owed_sources(b, case) if not s_.released and s_.pulls],
+                   "how": ctx.log[-1][0]}
     if case.get("repoll") and b.advanced and ctx.log and ctx.log[-1][0] in ("stop", "raise"):
         try:
             await out.__anext__()
@@ -164,6 +172,11 @@ def run_one(c):
         meddling = [e for e in log if e[0] in ("asend", "athrow")]
         if meddling:
             raise Violation(f"C04/{tool}/library-sends-or-throws-into-a-source", f"{meddling[:2]}", case=c)
+        at_end = b.extra if isinstance(getattr(b, "extra", None), dict) else {}
+        if at_end.get("open-at-end"):
+            raise Violation(f"C04/{tool}/source-still-open-when-the-{at_end['how']}-completed",
+                            f"open={at_end['open-at-end']} j={c['j']} fault={c.get('fault_at')} mode={c['mode']} "
+                            f"events={consumer_view(log)[-3:]}", case=c)
         leaked = [s.name for s in owed_sources(b, c) if not s.released]
         if leaked:
             what = "fault" if c.get("fault_at") else c["action"]
